@@ -51,6 +51,40 @@ pub fn seeds<Q: Qx>() -> Vec<W512> {
     v
 }
 
+/// observation-only states: the seed states plus "tie + one far bit" patterns: a leading bit, a guard bit d1
+/// places below it and a lone sticky bit d2 places below the leading bit (next to the guard, around the
+/// 64-bit window edge, across limb boundaries, at the very bottom), both signs, odd and even kept fractions
+pub fn seeds_obs<Q: Qx>() -> Vec<W512> {
+    let w = Q::W;
+    let mut v = seeds::<Q>();
+    let maxd1 = <Q::P as Fx>::N; // guard positions up to the posit width below the leading bit
+    for j in 3..(w - 1) {
+        let p = W512::from_shifted(1, j).unwrap();
+        for d1 in 1..=maxd1.min(j) {
+            let g = W512::from_shifted(1, j - d1).unwrap();
+            let base = p.add(g);
+            v.push(base);
+            v.push(base.neg());
+            for d2 in [d1 + 1, d1 + 2, 33, 34, 62, 63, 64, 65, 66, 96, 127, 128, 129, 192, j] {
+                if d2 > d1 && d2 <= j {
+                    let t = W512::from_shifted(1, j - d2).unwrap();
+                    v.push(base.add(t));
+                    v.push(base.add(t).neg());
+                    if d1 >= 2 {
+                        let odd = W512::from_shifted(1, j - d1 + 1).unwrap();
+                        v.push(base.add(odd).add(t));
+                        v.push(base.add(odd));
+                    }
+                }
+            }
+        }
+    }
+    v.retain(|x| decode_state::<Q>(x) != M::Nar);
+    v.sort_by_key(|x| x.to_be());
+    v.dedup();
+    v
+}
+
 /// full observation of a quire: hash of the bit image, to_posit, is_zero, is_nar
 pub fn observe<Q: Qx>(q: &Q) -> u128 {
     let w = q.to_w();
@@ -253,8 +287,10 @@ pub fn from_seeds<Q: Qx>(thorough: bool) -> Vec<CellDef> {
     }
     // observation of every seed itself: is_zero / is_nar / to_posit = round(s) (C04), and C12 state operations
     {
+        let sd = seeds_obs::<Q>();
+        let ns = sd.len() as u64;
         let sd1 = sd.clone();
-        v.push(CellDef::new("C04", format!("{}/observe(seeds)", Q::NAME), Space::func(ns, format!("{} seed states", ns), |i| i as u128), move |k| {
+        v.push(CellDef::new("C04", format!("{}/observe(seeds)", Q::NAME), Space::func(ns, format!("{} states (seed states + tie-plus-far-bit patterns)", ns), |i| i as u128), move |k| {
             let s = M::Val(sd1[k as usize]);
             let got = guard(|| observe(&Q::from_w(&sd1[k as usize])));
             Out::cmp(got, expect::<Q>(s), round_state::<Q>(s).1).ops(4)
